@@ -66,6 +66,17 @@ theorem rnd_uses_locked_generator :
     rndPickerCalls.all (fun c => ["len", "rand.Intn", "rand.Seed", "var:sync.Once.Do", "time.Now", "time.Now().UnixNano"].contains c) = true := by
   decide
 
+/-- **No other package writes to a table.**  Every package of the repository that imports `route` (`main`, `proxy`,
+`proxy/tcp`, `admin/api`, …) is type-checked with the checked package `route` served to its imports, so that
+`route.Target` and its fields resolve there; in ALL of their functions the writes to memory of `route`'s types
+(assignments through a target/route/table, `++`, `delete`, atomic ops, non-read-only method calls on receivers rooted
+there — also through locals and parameters —, foreign mutating calls) are collected.  The only ones are the two
+metrics handles (`Timer.Observe`, `RxCounter.Add`: internally synchronised counters, no routing input).  Together with
+`lookup_writes_pinned` this is "ring, rules and target fields are immutable once the table is published" as an
+obligation over the whole repository instead of an assumption. -/
+theorem no_other_package_writes_to_the_table :
+    externalTableWrites = ["call Target.RxCounter.Add", "call Target.Timer.Observe"] := by decide
+
 /-- **The active table is fetched once per lookup** (`tblSnap`, the first micro-step of the model's lookup): every
 call of `Table.Lookup` / `Table.LookupHost` in `main.go`, `proxy/` and `proxy/tcp/` has `route.GetTable()` itself as
 its receiver — no table captured outside the request path keeps answering after it was replaced.  (The harness
